@@ -45,7 +45,14 @@ def main():
         env["ARTAP_VERIF_EXPECT_REPO"] = copy
         env["VERIF_OUT"] = os.path.join(work, "out")
         for cid in a.checks:
-            r = subprocess.run([os.path.join(VERIF, "check"), cid, "--tier", a.tier], cwd=VERIF, env=env, capture_output=True, text=True)
+            try:
+                r = subprocess.run([os.path.join(VERIF, "check"), cid, "--tier", a.tier], cwd=VERIF, env=env, capture_output=True,
+                                   text=True, timeout=int(os.environ.get("MUTANT_TIMEOUT", "1500")), start_new_session=True)
+            except subprocess.TimeoutExpired:
+                print("%s TIMEOUT (the check did not terminate on the mutated code)" % cid)
+                subprocess.run("pkill -9 -f 'ARTAP_VERIF_EXPECT_REPO=%s' ; true" % copy, shell=True)
+                rc_all = 1
+                continue
             viol = [l for l in r.stdout.splitlines() if l.startswith("violation key=")]
             status = {0: "missed", 1: "DETECTED", 2: "CHECK-BROKEN"}.get(r.returncode, "rc=%d" % r.returncode)
             print("%s %s %s" % (cid, status, (viol[0][:230] if viol else r.stdout.strip().splitlines()[-1][:230] if r.stdout.strip() else r.stderr[-200:])))
